@@ -269,6 +269,12 @@ def damage_disk(root, single, state):
         path = root if single else os.path.join(root, *rel.split("/"))
         if data is None:
             os.remove(path)
+            # directories emptied by the removal go too (the model's disk is a tree of files;
+            # an empty directory cannot be expressed in the request to the Lean Checker model)
+            d = os.path.dirname(path)
+            while not single and d != root and d.startswith(root) and not os.listdir(d):
+                os.rmdir(d)
+                d = os.path.dirname(d)
         else:
             with open(path, "wb") as fd:
                 fd.write(data)
